@@ -42,7 +42,7 @@ RULE = ("allocsafe4: addmul_ui/submul_ui/addmul/submul with every sign combinati
         "aorsmul_i.c:169, products with a zero top limb, one-limb multiplier in either position, all five alias modes, destination allocation "
         "exact / need-1 / need / generous")
 
-PINS = [("mpz/aorsmul_i.c", None), ("mpz/aorsmul.c", None), ("mpz/mul.c", None), ("mpz/tdiv_q.c", None), ("mpz/tdiv_r.c", None), ("mpf/urandomb.c", None), ("mpz/sqrt.c", None), ("mpz/tdiv_qr.c", None)]
+PINS = [("mpz/aorsmul_i.c", None), ("mpz/aorsmul.c", None), ("mpz/mul.c", None), ("mpz/tdiv_q.c", None), ("mpz/tdiv_r.c", None), ("mpf/urandomb.c", None), ("mpz/sqrt.c", None), ("mpz/tdiv_qr.c", None), ("mpz/sqrtrem.c", None)]
 
 def nl(x): return (abs(x).bit_length() + 63) // 64
 
@@ -220,6 +220,10 @@ def gen_ops(rng, tier, ctx=None):
         yield gen_div(rng, "as4_tdiv_r")
         if _ % 4 == 0: yield gen_furandomb(rng)
         if _ % 2 == 0: yield gen_sqrt(rng)
+        else:
+            l = gen_sqrt(rng).split()
+            w2 = sgnd(rng, special(rng, rng.randrange(1, 4)))
+            yield "as4_sqrtrem %x %s %s %s %s %s" % (rng.randrange(3), l[2], l[3], obj(rng, w2, max(nl(int(l[5], 16)), 1)), l[4], l[5])
         yield gen_divqr(rng)
 
 def nontrivial(line):
